@@ -81,6 +81,9 @@ class FinishedPdu(AbstractFileDirectiveBase):
             self.fault_location = self._params.fault_location
         if params.file_store_responses is not None:
             self.file_store_responses = self._params.file_store_responses
+        # Without any TLV no setter has run yet: the data field length still has to account for the
+        # CRC trailer
+        self._calculate_directive_field_len()
 
     @classmethod
     def success_pdu(cls, pdu_conf: PduConfig) -> FinishedPdu:
